@@ -87,6 +87,7 @@ def generate(rs: int, tier: str, index: int) -> dict:
             "target": ch.choice(["simtext", "simbytes", "simtext_enc", "simbytes_enc", "path_str", "path_str", "pathlike"]),
             "locale": ch.choice(["utf-8", "utf-8", "latin-1", "ascii"]),
             "fault": ch.weighted([(4, None), (3, "write"), (1, "close"), (2, "read")]),
+            "forward_only": ch.chance(0.4),
         })
     else:
         rows, cols = ch.between(1, 4), ch.between(1, 3)
@@ -119,6 +120,7 @@ class Runner:
         self.events: List[Any] = []
         self.stats: Dict[str, int] = {}
         self.sigs: set = set()
+        self.forward_only = any(step.get("forward_only") for step in plan["steps"])
 
     def bump(self, key: str, n: int = 1) -> None:
         self.stats[key] = self.stats.get(key, 0) + n
@@ -265,10 +267,16 @@ class Runner:
         return path
 
     def _reader(self, env: fileseam.FileEnv, kind: str, target: Any, faults: fileseam.Faults) -> Any:
-        if kind.startswith("simtext"):
-            return fileseam.SimText(target.getvalue(), faults=faults, **({"encoding": "utf-8"} if kind.endswith("_enc") else {}))
-        if kind.startswith("simbytes"):
-            return fileseam.SimBytes(target.getvalue(), faults=faults, **({"encoding": "latin-1"} if kind.endswith("_enc") else {}))
+        if kind.startswith("sim"):
+            if kind.startswith("simtext"):
+                stream: Any = fileseam.SimText(target.getvalue(), faults=faults, **({"encoding": "utf-8"} if kind.endswith("_enc") else {}))
+            else:
+                stream = fileseam.SimBytes(target.getvalue(), faults=faults, **({"encoding": "latin-1"} if kind.endswith("_enc") else {}))
+            # a forward-only reader (a pipe, a decompressor, an HTTP body): tell() answers, seek() refuses
+            if self.forward_only:
+                stream.forward_only = True
+                self.bump("probe:forward_only_reader")
+            return stream
         env.set_faults(faults)
         return target
 
